@@ -200,8 +200,12 @@ HANDMADE = [
     ([('a', 'INPUT', ()), ('y', 'INPUT', ()), ('n1', 'NOT', ('a',)), ('n2', 'NOT', ('n1',)), ('i', 'LIFF', ('b2', 'y')) if False else ('i', 'LIFF', ('n2', 'y')), ('o', 'AND', ('a', 'y')), ('p', 'AND', ('n2', 'i'))], ['o', 'p']),
     # n-ary gates with repeated operands
     ([('a', 'INPUT', ()), ('b', 'INPUT', ()), ('x', 'XOR', ('a', 'b', 'a')), ('y', 'XOR', ('a', 'a', 'b')), ('o', 'NAND', ('x', 'y', 'b'))], ['o', 'x']),
+    # gates that differ only in how often an operand is listed (they are different functions for XOR / NXOR)
+    ([('a', 'INPUT', ()), ('b', 'INPUT', ()), ('x', 'XOR', ('a', 'b', 'a')), ('y', 'XOR', ('b', 'a')), ('p', 'NXOR', ('a', 'b', 'b')), ('q', 'NXOR', ('a', 'b')), ('o', 'OR', ('x', 'y', 'p', 'q'))], ['x', 'y', 'p', 'q', 'o']),
     # the same operand in every position of an n-ary gate
     ([('a', 'INPUT', ()), ('b', 'INPUT', ()), ('x', 'XOR', ('a', 'a', 'a')), ('y', 'NXOR', ('b', 'b', 'b')), ('z', 'AND', ('a', 'a', 'a')), ('o', 'OR', ('x', 'y', 'z'))], ['o', 'x', 'y']),
+    # duplicates that appear only once unary chains are collapsed (the order of the merging passes matters)
+    ([('a', 'INPUT', ()), ('b', 'INPUT', ()), ('n1', 'NOT', ('a',)), ('n2', 'NOT', ('n1',)), ('i', 'IFF', ('b',)), ('g1', 'AND', ('a', 'b')), ('g2', 'AND', ('n2', 'i')), ('o', 'XOR', ('g1', 'g2'))], ['o', 'g2', 'g1']),
     # nothing but inputs as outputs
     ([('a', 'INPUT', ()), ('b', 'INPUT', ())], ['b', 'b', 'a']),
 ]
@@ -525,3 +529,105 @@ def _propagate(clauses, assign):
                 assign[abs(unassigned)] = unassigned > 0
                 changed = True
     return True
+
+
+# ---------------------------------------------------------------------------
+# pipelines (C18.LIN / IDEM / POST): cleanup, transform, apply_transformers and `|` against sequential application
+
+TRANSFORMER = 'cirbo.core.circuit.transformer'
+
+
+def fold_pipelines(ck: Checker, R: str):
+    """Every way of running several passes -- `cleanup` (light / heavy), `P.transform`, `Transformer.apply_transformers`
+    on a list, the pipe operator (nested, mixed with lists), lists with repeated idempotent passes -- gives the circuit
+    obtained by applying the constituent passes (with the pre-/post-passes each one declares) one after another."""
+    repo = ck.repo
+    den = Denotations(repo)
+    ov = gate_overrides(den)
+    types = {t.var: t for t in ov.values() if isinstance(t, GateTypeVal)}
+    ov['cirbo.core.circuit.circuit.Circuit'] = lambda: PassModel(types['INPUT'])
+    it = Interp(repo, overrides=ov, max_steps=6_000_000)
+    it.real_super = True
+    it.instance_dunders = True
+    for g in ('linearize_transformers', 'linearize_reduce_transformers', 'as_distinct'):
+        it.eager_generators.add(f'{TRANSFORMER}.{g}')
+    tm = repo.mod(TRANSFORMER)
+    cl = repo.mod(f'{SIMPL}.cleanup')
+    T = it.global_value(tm, 'Transformer')
+
+    def new(modname, cname, **kw):
+        m = repo.mod(f'{SIMPL}.{modname}')
+        it.steps = 0
+        return it.instantiate(RepoClass(m, m.cls(cname)), (), kw)
+
+    def make():
+        return {'RRG': new('remove_redundant_gates', 'RemoveRedundantGates'), 'RRGi': new('remove_redundant_gates', 'RemoveRedundantGates', allow_inputs_removal=True),
+                'MUO': new('merge_unary_operators', 'MergeUnaryOperators'), 'MDG': new('merge_duplicate_gates', 'MergeDuplicateGates'), 'MEG': new('merge_equivalent_gates', 'MergeEquivalentGates')}
+
+    def lin(p):
+        """Reference linearisation from the declared dependencies (attribute names are the class's documented ones)."""
+        d = p._d
+        if '_transformers' in d:
+            return [x for ch in d['_transformers'] for x in lin(ch)]
+        return [x for ch in d.get('_pre_transformers', ()) for x in lin(ch)] + [p] + [x for ch in d.get('_post_transformers', ()) for x in lin(ch)]
+
+    def seq(c, passes_):
+        cur = c
+        for p in passes_:
+            it.steps = 0
+            cur = it.getattr(p._cls.mod, None, p, '_transform')(cur)
+            cur.order = c.order
+        return cur
+
+    fam = [x for x in HANDMADE] + family(ck.tier)[len(HANDMADE):len(HANDMADE) + (10 if ck.tier == 'quick' else 80)]
+    apply_t = it.getattr(tm, None, T, 'apply_transformers')
+    cleanup = RepoFunc(it, cl, cl.func('cleanup'))
+    scenarios = [
+        ('cleanup(c)', lambda P, c: cleanup(c), lambda P: [P['RRG'], P['MUO'], P['MDG']]),
+        ('cleanup(c, use_heavy=True)', lambda P, c: cleanup(c, use_heavy=True), lambda P: [P['RRG'], P['MUO'], P['MDG'], P['MEG']]),
+        ('MergeDuplicateGates().transform(c)', lambda P, c: it.getattr(tm, None, P['MDG'], 'transform')(c), lambda P: [P['MDG']]),
+        ('MergeEquivalentGates().transform(c)', lambda P, c: it.getattr(tm, None, P['MEG'], 'transform')(c), lambda P: [P['MEG']]),
+        ('RemoveRedundantGates(allow_inputs_removal=True).transform(c)', lambda P, c: it.getattr(tm, None, P['RRGi'], 'transform')(c), lambda P: [P['RRGi']]),
+        ('apply_transformers(c, [MUO, MDG])', lambda P, c: apply_t(c, [P['MUO'], P['MDG']]), lambda P: [P['MUO'], P['MDG']]),
+        ('(MUO | MDG).transform(c)', lambda P, c: it.getattr(tm, None, P['MUO'] | P['MDG'], 'transform')(c), lambda P: [P['MUO'], P['MDG']]),
+        ('(RRG | (MDG | MUO)).transform(c)', lambda P, c: it.getattr(tm, None, P['RRG'] | (P['MDG'] | P['MUO']), 'transform')(c), lambda P: [P['RRG'], P['MDG'], P['MUO']]),
+        ('apply_transformers(c, [MDG | MUO, MEG])', lambda P, c: apply_t(c, [P['MDG'] | P['MUO'], P['MEG']]), lambda P: [P['MDG'], P['MUO'], P['MEG']]),
+        ('apply_transformers(c, [RRG, RRG, RRGi, RRG])', lambda P, c: apply_t(c, [P['RRG'], P['RRG'], P['RRGi'], P['RRG']]), lambda P: [P['RRG'], P['RRG'], P['RRGi'], P['RRG']]),
+        ('apply_transformers(c, MUO | RRGi)', lambda P, c: apply_t(c, P['MUO'] | P['RRGi']), lambda P: [P['MUO'], P['RRGi']]),
+        # a pass whose declared post-pass has dependencies of its own (they must be implied too)
+        ('MUO with post-pass MDG: transform(c)', lambda P, c: (P['MUO']._d.__setitem__('_post_transformers', (P['MDG'],)), it.getattr(tm, None, P['MUO'], 'transform')(c))[1],
+         lambda P: [P['MUO']]),
+    ]
+    n = 0
+    for name, run_api, members in scenarios:
+        probs = []
+        for spec, outs in fam:
+            n += 1
+            P = make()
+            c = build(types, spec, outs)
+            before = c.struct()
+            desc = f'{[(l, t) + tuple(o) for l, t, o in spec if t != "INPUT"]} outputs {list(outs)}'
+            try:
+                it.steps = 0
+                got = run_api(P, c)
+            except InterpRaise as e:
+                probs.append(f'raises {e.exc_name} on {desc}')
+                continue
+            if c.struct() != before:
+                probs.append(f'the argument circuit was modified on {desc}')
+                continue
+            c2 = build(types, spec, outs)
+            try:
+                want = seq(c2, [x for p in members(P) for x in lin(p)])
+            except InterpRaise as e:
+                probs.append(f'sequential application raises {e.exc_name} on {desc}')
+                continue
+            if not isinstance(got, FakeCircuit) or got.struct() != want.struct():
+                probs.append(f'result {got.struct() if isinstance(got, FakeCircuit) else got!r} differs from applying the constituent passes one after another ({want.struct()}) on {desc}')
+            if len(probs) > 2:
+                break
+        ck.check(not probs, R, tm if 'cleanup' not in name else cl, (cl.func('cleanup') if 'cleanup' in name else tm.func('Transformer.apply_transformers')),
+                 f'{name} equals applying its constituent passes (with their declared pre-/post-passes) one after another, argument untouched ({len(fam)} model circuits)',
+                 '; '.join(probs[:2]), construct=f'pipeline {name}')
+    ck.notes['pipeline_runs'] = n
+    ck.assume('pipelines are folded over a bounded family of model circuits with oracle traversals; the constituent passes themselves are decided by C18.FOLD / C03.FOLD')
